@@ -48,34 +48,38 @@ def R_attr(toks):
     return out, n
 
 def R_ret(toks):
-    """`-> T {` becomes `-> (ret: T) {` (names the result; no executable change)."""
-    k = _fn_kw(toks)
-    if k is None: return toks, 0
-    bo = _body_open(toks, k)
-    if bo is None: return toks, 0
-    # find '->' at depth 0 between k and bo
-    j = k + 1; arrow = None
-    while j < bo:
-        t = toks[j]
-        if t.kind == "punct" and t.text in OPEN:
-            j = match_close(toks, j) + 1; continue
-        if t.text == "-" and toks[j+1].text == ">" and toks[j+1].pre == "":
-            arrow = j; break
-        j += 1
-    if arrow is None: return toks, 0
-    # type runs to 'where' at depth 0 or to bo
-    end = bo
-    j = arrow + 2
-    while j < bo:
-        t = toks[j]
-        if t.kind == "punct" and t.text in OPEN:
-            j = match_close(toks, j) + 1; continue
-        if t.kind == "ident" and t.text == "where": end = j; break
-        j += 1
-    ty = toks[arrow+2:end]
-    if not ty: return toks, 0
-    new = toks[:arrow+2] + _mk(["(", "ret", ":"], ty[0], " ") + ty + _mk([")"], ty[-1], "") + toks[end:]
-    return new, 1
+    """`-> T {` becomes `-> (ret: T) {` for the function and every nested fn (names the result; no executable change)."""
+    out = list(toks); n = 0
+    i = 0
+    while i < len(out):
+        if not (out[i].kind == "ident" and out[i].text == "fn"):
+            i += 1; continue
+        k = i
+        bo = _body_open(out, k)
+        if bo is None: i += 1; continue
+        j = k + 1; arrow = None
+        while j < bo:
+            t = out[j]
+            if t.kind == "punct" and t.text in OPEN:
+                j = match_close(out, j) + 1; continue
+            if t.text == "-" and out[j+1].text == ">" and out[j+1].pre == "":
+                arrow = j; break
+            j += 1
+        if arrow is None: i = bo + 1; continue
+        end = bo
+        j = arrow + 2
+        while j < bo:
+            t = out[j]
+            if t.kind == "punct" and t.text in OPEN:
+                j = match_close(out, j) + 1; continue
+            if t.kind == "ident" and t.text == "where": end = j; break
+            j += 1
+        ty = out[arrow+2:end]
+        if not ty: i = bo + 1; continue
+        out = out[:arrow+2] + _mk(["(", "ret", ":"], ty[0], " ") + ty + _mk([")"], ty[-1], "") + out[end:]
+        n += 1
+        i = bo + 5
+    return out, n
 
 def R_pub(toks):
     """make the item `pub` if it is not (visibility only; needed so that open spec fns may mention it)."""
@@ -97,6 +101,7 @@ def R_refpat(toks):
                 j += 1
             ins = _mk(["let", x.text, "=", "*", x.text, ";"], out[j], " ")
             del out[i+1]
+            out[i+1].pre = " "
             j -= 1
             out[j+1:j+1] = ins
             n += 1
@@ -294,4 +299,18 @@ def R_dynauth(toks):
         if toks[i].text == "dyn" and i + 1 < len(toks) and toks[i+1].text == "S3Auth":
             t = Tok("ident", "S3AuthObj", toks[i].pre, line=toks[i].line); out.append(t); i += 2; n += 1; continue
         out.append(toks[i]); i += 1
+    return out, n
+
+def R_pubfields(toks):
+    """private struct fields become `pub` (visibility only, so that contracts outside the defining module can read them)."""
+    out = []; n = 0
+    bo = next((i for i, t in enumerate(toks) if t.text == "{"), None)
+    if bo is None: return toks, 0
+    depth = 0
+    for i, t in enumerate(toks):
+        if i > bo and depth == 1 and t.kind == "ident" and i + 1 < len(toks) and toks[i+1].text == ":" and toks[i-1].text in ("{", ",") :
+            out.append(Tok("ident", "pub", t.pre, line=t.line)); t = t.copy(); t.pre = " "; n += 1
+        if t.kind == "punct" and t.text in OPEN: depth += 1
+        elif t.kind == "punct" and t.text in ")]}": depth -= 1
+        out.append(t)
     return out, n
